@@ -168,6 +168,9 @@ def gen_curve(rng, g, n, heavy):
                     d2, P2 = D(g, P1, rng), P1; cl.add("equals:same-element-other-repr")
                 elif t == 1:
                     P2 = g.neg(P1); d2 = D(g, P2, rng); cl.add("equals:opposite")
+                elif t == 2 and isinstance(g, EdG):
+                    # same point up to a low-order component: distinct curve points (the full curve is the group here)
+                    P2 = g.add(P1, rng.choice([L for L in g.low if not g.is_neutral(L)])); d2 = D(g, P2, rng); cl.add("equals:differ-by-low-order-point")
                 else:
                     d2, P2 = operand()
                 e = g.eq(P1, P2)
@@ -225,7 +228,7 @@ def main(argv):
                 req += [c + ":operand-lambda-scaled"]
         req += ["ed25519:operand-low-order", "ed448:operand-low-order", "ed25519:operand-not-in-subgroup", "ed448:operand-not-in-subgroup",
                 "ristretto255:operand-torsion-shifted", "decaf448:operand-torsion-shifted", "jq255e:operand-negated-eu", "jq255s:operand-negated-eu",
-                "ed25519:xdouble-reaches-neutral"]
+                "ed25519:xdouble-reaches-neutral", "ed25519:equals:differ-by-low-order-point", "ed448:equals:differ-by-low-order-point"]
         for c in ("p256", "secp256k1"):
             req += [c + ":ctor:projective-valid", c + ":ctor:projective-infinity(0:0:0)", c + ":ctor:projective-infinity(X:Y:0)", c + ":ctor:projective-invalid",
                     c + ":ctor:affine-valid", c + ":ctor:affine-invalid"]
